@@ -19,6 +19,10 @@ func genHistory(r *Rng, cfg *Config, n int, lsW []int, pInterpose float64) []Op 
 			ops = append(ops, genLockWindow(r, cfg)...)
 			continue
 		}
+		if pInterpose > 0 && r.Chance(0.05) {
+			ops = append(ops, genFailedCheckpoint(r, cfg)...)
+			continue
+		}
 		op := genLSOp(r, cfg, lsW)
 		if op.Kind != "sleep" && r.Chance(pInterpose) {
 			k := 1
